@@ -669,6 +669,91 @@ fn dft_sizes(l: usize) -> Vec<usize> {
 
 const DFT_ANCHOR_LENS: [usize; 18] = [1, 2, 3, 4, 5, 7, 8, 9, 15, 16, 17, 31, 33, 63, 64, 65, 128, 129];
 
+// ------------------------------------------------------------------ single precision
+/// `Polynomial<f32>`: the arithmetic is generic over the coefficient field and `f32` is a real field
+/// too. Sums and products (all three multiplication paths) against exact convolution of the
+/// f32 inputs carried out in f64; rounding unit f32::EPSILON. (A type-keyed fast path that only
+/// recognises f64 is invisible to the f64 / Complex<f64> stages.)
+fn run_f32_pair(rep: &mut Report, rng: &mut Rng) {
+    let ma = *rng.pick(&[1usize, 2, 3, 8, 40]);
+    let la = 1 + rng.below(ma);
+    let mb = *rng.pick(&[1usize, 2, 3, 8, 40]);
+    let lb = 1 + rng.below(mb);
+    let gen = |rng: &mut Rng, n: usize| -> Vec<f32> {
+        let mut v: Vec<f32> = (0..n).map(|_| (rng.r(-1.0, 1.0) * rng.log10(-2.0, 2.0)) as f32).collect();
+        if v[n - 1].abs() < 1e-3 {
+            v[n - 1] = 0.5;
+        }
+        v
+    };
+    let a = gen(rng, la);
+    let b = gen(rng, lb);
+    let pa: Polynomial<f32> = a.iter().copied().collect();
+    let pb: Polynomial<f32> = b.iter().copied().collect();
+    rep.eval();
+    rep.count("f32/pairs", 1);
+    let case = || J::obj().set("field", "f32").set("a_ascending", J::Arr(a.iter().map(|v| J::from(*v as f64)).collect())).set("b_ascending", J::Arr(b.iter().map(|v| J::from(*v as f64)).collect()));
+    let prod = match guard(|| &pa * &pb) {
+        Guarded::Ok(p) => p,
+        Guarded::Panic(m, l) => {
+            rep.violation("f32/panic", case(), format!("&a * &b panicked for Polynomial<f32>: '{}' at {}", m, l));
+            return;
+        }
+        Guarded::Budget => return,
+    };
+    let sum = match guard(|| &pa + &pb) {
+        Guarded::Ok(p) => p,
+        _ => {
+            rep.violation("f32/panic", case(), "&a + &b panicked for Polynomial<f32>".into());
+            return;
+        }
+    };
+    let e32 = f32::EPSILON as f64;
+    // exact product of the f32 inputs
+    let mut exact = vec![0.0f64; la + lb - 1];
+    for (i, x) in a.iter().enumerate() {
+        for (j, y) in b.iter().enumerate() {
+            exact[i + j] += *x as f64 * *y as f64;
+        }
+    }
+    let na = a.iter().map(|v| (*v as f64).powi(2)).sum::<f64>().sqrt();
+    let nb = b.iter().map(|v| (*v as f64).powi(2)).sum::<f64>().sqrt();
+    let n_fft = (2 * la.max(lb)).next_power_of_two().max(2) as f64;
+    let bound = K_PRODUCT * e32 * n_fft.log2().max(1.0) * na * nb + 1e-10;
+    // degree: never above the sum of the degrees; equal to it when the exact leading coefficient
+    // stands clear of the rounding noise (otherwise the computed one may legitimately be purged)
+    let lead = exact[la + lb - 2].abs();
+    if prod.order() > la + lb - 2 || (lead > 2.0 * bound && prod.order() != la + lb - 2) {
+        rep.violation("f32/product-degree", case().set("order", prod.order()), format!("Polynomial<f32>: order(a*b) = {}, expected {} (exact leading coefficient {:e}, rounding bound {:e})", prod.order(), la + lb - 2, lead, bound));
+        return;
+    }
+    for (k, want) in exact.iter().enumerate() {
+        let got = prod.get_coefficient(k) as f64;
+        let err = (got - want).abs();
+        rep.max("f32/product_err_over_unit", err / (e32 * n_fft.log2().max(1.0) * na * nb));
+        if !(err <= bound) {
+            rep.violation("f32/product-coefficients", case().set("power", k).set("got", got).set("exact", *want), format!("Polynomial<f32> product: coefficient of x^{} is {:e}, exact {:e} (bound {:e})", k, got, want, bound));
+            return;
+        }
+    }
+    for k in 0..la.max(lb) {
+        let want = a.get(k).copied().unwrap_or(0.0) as f64 + b.get(k).copied().unwrap_or(0.0) as f64;
+        let got = sum.get_coefficient(k) as f64;
+        if !((got - want).abs() <= 4.0 * e32 * want.abs() + 1e-10) {
+            rep.violation("f32/sum-coefficients", case().set("power", k).set("got", got).set("exact", want), format!("Polynomial<f32> sum: coefficient of x^{} is {:e}, exact {:e}", k, got, want));
+            return;
+        }
+    }
+    if la >= 3 && lb >= 3 {
+        rep.count("f32/fft_path_pairs", 1);
+    }
+    let mut h = CaseHash::new("c11-f32");
+    for v in a.iter().chain(b.iter()) {
+        h = h.f(*v as f64);
+    }
+    rep.nontrivial(h.0);
+}
+
 // ------------------------------------------------------------------ stages
 
 pub fn stages(ctx: &Ctx) -> Vec<Stage> {
@@ -753,6 +838,10 @@ pub fn stages(ctx: &Ctx) -> Vec<Stage> {
         shape.push_str(decorate(&mut rng, complex, &mut c, idft_tol.max(1e-14)));
         let case = DftCase { complex, c, size, tol, idft_tol, shape };
         run_dft_dyn(rep, &case, &mut rng);
+    }));
+    st.push(Stage::new("f32-pairs", tier.pick(4_000, 60_000), move |i, rep| {
+        let mut rng = Rng::for_case(seed, "c11-f32", i);
+        run_f32_pair(rep, &mut rng);
     }));
     st
 }
